@@ -18,6 +18,9 @@ from mc import world as W
 from mc import localchecks
 from mc.localchecks import expand as local_expand  # noqa: F401 (looked up by name in the workers)
 
+from mc import freshtier
+from mc.freshtier import compare_batch as fresh_compare_batch  # noqa: F401
+
 ID = "C17"
 LEVEL = "model_checking"
 CANCEL_EXE = {"slurm": "scancel", "sge": "qdel", "lsf": "bkill"}
@@ -184,12 +187,22 @@ def run(ctx):
     local_done = localchecks.run_local(ctx, me, ID, [("twocomp", 3)] if ctx.tier == "quick" else [("twocomp", 5), ("fork", 4)])
     ctx.notes.setdefault("coverage_extra", {})["local_backend"] = local_done
     ctx.traces_validated = ctx.acc.extra["transitions"] + ctx.acc.extra["invocations"]
+    ctx.pmap(me, "fresh_compare_batch", freshtier.items([(["cancel", "-f"], None), (["cancel"], "n\n"), (["cancel"], "y\n"), (["cancel", "B"], None), (["cancel", "Zz*"], None)], backends=("slurm", "sge", "lsf") if ctx.tier != "quick" else ("slurm", "lsf")), chunk=2)
+    ctx.notes.setdefault("coverage_extra", {})["fresh_process_cases"] = ctx.acc.extra["fresh_processes"]
     ctx.rule = "state = canonical world; per state 13 selections x (no fault + every failing position x 2 kinds); function level: (n, failing set, untracked set, permutation)"
     ctx.bound = dict(configs=done, selections=13, fault_kinds=["rc1", "stderr_error"])
     ctx.assumptions = ["scheduler simulators: scancel --verbose / qdel / bkill semantics from documentation; a cancel command that fails changes nothing in the scheduler", "local pool: C13/C14"]
 
 
 def replay(case):
+    if case.get("kind") == "fresh":
+        from mc.runner import Acc
+
+        acc = Acc()
+        for it in freshtier.items([(["cancel", "-f"], None), (["cancel"], "n\n"), (["cancel"], "y\n"), (["cancel", "B"], None), (["cancel", "Zz*"], None)]):
+            if it[0] == case["label"] and it[2] == case["args"]:
+                freshtier.compare_batch(acc, [it])
+        return acc.violations
     if case.get("kind") == "local":
         return localchecks.replay(case)
     from mc.runner import Acc
